@@ -28,7 +28,9 @@ const MNAMES: &[&str] = &["m", "mymac", "util_1", "_m", "doit", "M2", "calc_roll
 // names of *called* macros may contain non-ASCII letters (definitions stay ASCII, as the lexer documents)
 // (the last names have a macro keyword as a prefix: they are ordinary user macros)
 const CALLNAMES: &[&str] = &["m", "mymac", "util_1", "_m", "doit", "M2", "größe", "тест", "é", "m", "whilex", "until_v", "dox", "endx", "letx", "strx", "evalx", "thenx", "tox", "byx", "WHILE2", "mendy", "ifa", "putx", "calc_rolling_std_for_all_numeric"];
-const MVARS: &[&str] = &["v", "mv", "i", "n1", "_x", "lib", "Dsn", "é", "тест", "calc_rolling_std_for_all_numeric"];
+const MVARS: &[&str] = &["v", "mv", "i", "n1", "_x", "lib", "Dsn", "é", "тест", "calc_rolling_std_for_all_numeric", "to", "by", "end", "do", "input", "eq", "str", "In"];
+// names spelled like macro statement keywords, built-ins or mnemonics (without the '%' they are ordinary names)
+const KWNAMES: &[&str] = &["by", "to", "input", "list", "local", "window", "do", "end", "if", "then", "else", "let", "put", "until", "while", "global", "run", "eval", "str", "scan", "TO", "By", "macro", "mend", "return", "abort", "goto", "length", "index", "upcase", "and", "or", "not", "eq", "in", "sysfunc", "nrstr", "display", "copy", "symdel"];
 const OPEN_KW: &[&str] = &["data", "set", "run", "proc", "if", "then", "else", "do", "end", "by", "where", "select", "from", "output", "keep", "format", "input", "put", "length", "_null_", "and", "or", "not", "in", "eq", "ne"];
 const OPEN_SYM: &[&str] = &["=", "+", "-", "/", "<", ">", "<=", ">=", "^=", "~=", "||", "|", "!!", ",", ".", ":", "@", "#", "?", "**", "<>", "><", "=*", "{", "}", "[", "]", "&", "&&", "%", "$", "¬", "¬=", "!", "¦", "¦¦", "∘", "^"];
 // (the last words start with letters whose code point ends in the byte of an ASCII delimiter: U+0128 ( U+0129 ) U+012C ,
@@ -192,6 +194,7 @@ impl<'a> G<'a> {
                     2 => { self.feat("named-arg-name-call"); self.p("%"); let m = self.pick(CALLNAMES); self.p(m); }
                     3 if self.u.coin(1, 3) => { self.feat("named-arg-name-call"); self.p("%"); let m = self.pick(CALLNAMES); self.p(m); if self.u.coin(1, 2) { self.mvar(false); } else { self.p("%"); let m = self.pick(CALLNAMES); self.p(m); } }
                     3 => { self.feat("named-arg-name-call"); let an = self.pick(&["pre", "k_"]); self.p(an); self.p("%"); let m = self.pick(CALLNAMES); self.p(m); if self.u.coin(1, 3) { self.p("()"); } }
+                    4 => { self.feat("keyword-spelled-name"); let an = self.pick(KWNAMES); self.p(an); }
                     _ => { let an = self.pick(IDENTS); let an = if an.is_ascii() { an } else { "k" }; self.p(an); }
                 }
                 self.ows(); self.mark("=", MK::Delim("ASSIGN", false)); self.ows();
@@ -429,7 +432,15 @@ impl<'a> G<'a> {
         }
         match k {
             0 | 1 => { let s = self.pick(&["0", "1", "42", "100", "0ffx", "007", "10", "00", "1Ax", "0FFX", "999999999"]); self.mark(s, MK::IntOperand); self.tp(); }
-            2 => self.mvar(true),
+            2 => {
+                self.mvar(true);
+                if self.u.coin(1, 6) {
+                    // an operand of several pieces: the blank after the reference and what follows belong to it
+                    self.feat("operand-pieces-after-mvar");
+                    self.p(" ");
+                    match self.u.below(3) { 0 => { let dg = self.pick(&["1", "20", "0"]); self.mark(dg, MK::NotInt); } 1 => { let w = self.pick(&["b", "x1", "one"]); self.mark(w, MK::Word); } _ => self.mvar(true) }
+                }
+            }
             3 => { let w = self.pick(&["abc", "x1", "txt", "é", "a b c", "1 2 3", "x.y", "a_1 b", "rate", "size", "SCALE", "value", "base", "type", "and1", "or_x", "nex", "eq1", "inx", "NOTE", "gex", "lte", "one", "line", "online", "engine", "alone", "gone", "nine", "Andorra", "legend", "origin", "Anna Lee", "no one", "x a", "abc all", "go online", "a line", "1 e", "an angel", "in1 a"]); if w.chars().all(|c| c.is_ascii_alphanumeric() || c == '_') { self.mark(w, MK::Word); } else if w.chars().all(|c| c.is_ascii_alphanumeric() || c == '_' || c == ' ') && w.contains(|c: char| c.is_ascii_alphabetic()) && !w.starts_with(|c: char| c.is_ascii_digit()) {
                 // several words: each is plain text (the blanks between them belong to the operand)
                 let mut first = true; for piece in w.split(' ') { if !first { self.p(" "); } first = false; self.mark(piece, MK::Word); } } else { self.p(w); } }
@@ -479,6 +490,13 @@ impl<'a> G<'a> {
         self.feat("comment-stmt");
         // outside macro definitions a '*' statement is a comment whatever macro code it mentions
         if self.in_macro == 0 && self.u.coin(1, 4) { self.feat("star-comment-with-macro-code"); let c = self.pick(&["* %put it's on;", "* x %let y=1;", "* call %m(a;", "*%do i=1 %to 3;", "* &v %end \"q;", "* %if a %then b;"]); self.p(c); return; }
+        if self.u.coin(1, 5) {
+            // '%' and '&' that do not start macro code (no name directly after them): the statement stays a comment,
+            // also inside a macro definition, and the quote in it is not a string
+            self.feat("star-comment-with-literal-trigger-char");
+            let c = self.pick(&["* don't use more than 50% of the rows;", "* 25% wider & 'x;", "* a %-share's;", "* 100%;", "* x & y's;", "* 5 %1 it's;", "* a&-b %(c) \"d;", "* 50 % of 'em;"]); self.p(c);
+            return;
+        }
         match self.u.below(4) { 0 => self.p("* a comment, with 'stuff;"), 1 => self.p("%* macro comment 'with ; quoted' \"and ;\";"), 2 => self.p("/* block ; comment */"), _ => self.p("*;") }
     }
     fn datalines_block(&mut self) { if self.in_macro > 0 { return self.open_stmt(); } self.feat("datalines"); if !self.out.trim_end_matches(|c: char| c.is_whitespace()).ends_with(';') && !self.out.is_empty() { self.p(";"); } match self.u.below(4) { 0 => self.p("datalines;\n1 2 3\nabc def\n;"), 1 => self.p("cards ;\n;"), 2 => self.p("DATALINES4;\na;b;;;c\n'x\n;;;;"), _ => self.p("lines;\n%notmacro &x /* not comment\n;") } }
@@ -501,7 +519,7 @@ impl<'a> G<'a> {
     }
     fn macro_def(&mut self) {
         self.feat("macro-def"); self.pk("%macro"); self.rws(); let nm = self.pick(MNAMES); self.p(nm);
-        if self.u.coin(2, 3) { self.ows(); self.mark("(", MK::Delim("LPAREN", false)); let n = self.u.below(4); for i in 0..n { if i > 0 { self.mark(",", MK::Delim("COMMA", false)); } self.ows(); let a = self.pick(&["p1", "arg", "_k", "ds", "calc_rolling_std_for_all_numeric", "output_dataset_name_with_prefix"]); self.p(a); self.ows(); if self.u.coin(1, 2) { self.feat("def-default"); self.mark("=", MK::Delim("ASSIGN", false)); self.ows(); if self.u.coin(2, 3) { self.arg_value(true); } } } if n == 0 { self.ows(); } self.mark(")", MK::Delim("RPAREN", false)); }
+        if self.u.coin(2, 3) { self.ows(); self.mark("(", MK::Delim("LPAREN", false)); let n = self.u.below(4); for i in 0..n { if i > 0 { self.mark(",", MK::Delim("COMMA", false)); } self.ows(); let a = if self.u.coin(1, 4) { self.feat("keyword-spelled-name"); self.pick(KWNAMES) } else { self.pick(&["p1", "arg", "_k", "ds", "calc_rolling_std_for_all_numeric", "output_dataset_name_with_prefix"]) }; self.p(a); self.ows(); if self.u.coin(1, 2) { self.feat("def-default"); self.mark("=", MK::Delim("ASSIGN", false)); self.ows(); if self.u.coin(2, 3) { self.arg_value(true); } } } if n == 0 { self.ows(); } self.mark(")", MK::Delim("RPAREN", false)); }
         if self.u.coin(1, 3) { self.ows(); let o = self.pick(&["/ des='x' minoperator", "/ store source", "/ parmbuff", "/ minoperator mindelimiter=','", "/ DES=\"a;b\" secure", "/store", "/ des='it''s'"]); self.p(o); }
         self.ows(); self.mark(";", MK::Delim("SEMI", false));
         self.in_macro += 1; self.body(); self.in_macro -= 1;
